@@ -6,12 +6,12 @@
 /// Check for `assertion`: ""format class = class of the first date-like token of the first section""
 
 #[test]
-fn kani_concrete_playback_c10_q_grammar_2_10687118597026684639() {
+fn kani_concrete_playback_c10_q_grammar_2_12299291905077819803() {
     let concrete_vals: Vec<Vec<u8>> = vec![
-        // 35ul
-        vec![35, 0, 0, 0, 0, 0, 0, 0],
-        // 27ul
-        vec![27, 0, 0, 0, 0, 0, 0, 0],
+        // 47ul
+        vec![47, 0, 0, 0, 0, 0, 0, 0],
+        // 42ul
+        vec![42, 0, 0, 0, 0, 0, 0, 0],
     ];
     kani::concrete_playback_run(concrete_vals, c10_q_grammar_2);
 }
@@ -21,12 +21,12 @@ fn kani_concrete_playback_c10_q_grammar_2_10687118597026684639() {
 /// Check for `cover`: "end-elapsed"
 
 #[test]
-fn kani_concrete_playback_c10_q_grammar_2_2399675311439866275() {
+fn kani_concrete_playback_c10_q_grammar_2_16600363755310155035() {
     let concrete_vals: Vec<Vec<u8>> = vec![
-        // 48ul
-        vec![48, 0, 0, 0, 0, 0, 0, 0],
         // 31ul
         vec![31, 0, 0, 0, 0, 0, 0, 0],
+        // 38ul
+        vec![38, 0, 0, 0, 0, 0, 0, 0],
     ];
     kani::concrete_playback_run(concrete_vals, c10_q_grammar_2);
 }
@@ -36,12 +36,12 @@ fn kani_concrete_playback_c10_q_grammar_2_2399675311439866275() {
 /// Check for `cover`: "end-date"
 
 #[test]
-fn kani_concrete_playback_c10_q_grammar_2_17160686027840054614() {
+fn kani_concrete_playback_c10_q_grammar_2_14325699652323654448() {
     let concrete_vals: Vec<Vec<u8>> = vec![
-        // 39ul
-        vec![39, 0, 0, 0, 0, 0, 0, 0],
-        // 19ul
-        vec![19, 0, 0, 0, 0, 0, 0, 0],
+        // 27ul
+        vec![27, 0, 0, 0, 0, 0, 0, 0],
+        // 40ul
+        vec![40, 0, 0, 0, 0, 0, 0, 0],
     ];
     kani::concrete_playback_run(concrete_vals, c10_q_grammar_2);
 }
